@@ -154,6 +154,28 @@ def index_charge(leg, i):
     return [int(x) * int(leg.qconj) for x in qf[i]]
 
 
+def leg_phys(l):
+    """what a leg means physically, with python ints: block boundaries and charge*qconj of every block (mod)"""
+    mods = [int(m) for m in l.chinfo.mod]
+    qc = int(l.qconj)
+    return ([int(s) for s in l.slices], [valid(mods, [int(x) * qc for x in c]) for c in l.charges])
+
+
+def legs_same(l1, l2):
+    """independent re-statement of `LegCharge.test_equal`"""
+    return l1.chinfo == l2.chinfo and leg_phys(l1) == leg_phys(l2)
+
+
+def legs_contractible(l1, l2):
+    """independent re-statement of `LegCharge.test_contractible`"""
+    if l1.chinfo != l2.chinfo:
+        return False
+    mods = [int(m) for m in l1.chinfo.mod]
+    s1, c1 = leg_phys(l1)
+    s2, c2 = leg_phys(l2)
+    return s1 == s2 and [valid(mods, [-x for x in c]) for c in c1] == c2
+
+
 def label_perm(self_labels, other_labels):
     """independent re-statement of `_transpose_same_labels`: axes for `other.transpose(axes)` or None"""
     if list(self_labels) == list(other_labels):
